@@ -1,6 +1,7 @@
 package worlds
 
 import (
+	"crypto/sha256"
 	"encoding/hex"
 	"fmt"
 	"os"
@@ -15,7 +16,9 @@ import (
 // ProxyParams are the swarm parameters of one W-proxy run (drawn from the
 // "params" stream; 0 is the simplest value of each).
 type ProxyParams struct {
-	Proto        string
+	Proto        string   // protocol of the first client connection
+	Protos       []string // protocol per client connection (index mod len); one entry unless Auto
+	Auto         bool     // listener detects the protocol (downstream_protocol "Auto")
 	NConns       int
 	ReqsPerConn  int
 	NHosts       int
@@ -75,6 +78,20 @@ func pickFrom[T any](ch *sim.Choices, stream, label string, opts []T) T {
 // DrawProxyParams draws the parameters for property prop.
 func DrawProxyParams(ch *sim.Choices, prop string) ProxyParams {
 	p := ProxyParams{Proto: pickFrom(ch, "params", "proto", protoChoices(prop))}
+	p.Protos = []string{p.Proto}
+	if autoAllowed(prop) && ch.Chance("params", "auto", 1, 3) {
+		p.Auto = true
+		p.Protos = nil
+		for _, x := range autoProtos {
+			if ch.Bool("params", "auto:"+x) {
+				p.Protos = append(p.Protos, x)
+			}
+		}
+		if len(p.Protos) == 0 {
+			p.Protos = []string{"bolt", "http1"}
+		}
+		p.Proto = p.Protos[0]
+	}
 	p.NConns = 1 + ch.Pick("params", "nconns", 3)
 	p.ReqsPerConn = 1 + ch.Pick("params", "reqs", 6)
 	p.NHosts = 1 + ch.Pick("params", "nhosts", 3)
@@ -83,6 +100,9 @@ func DrawProxyParams(ch *sim.Choices, prop string) ProxyParams {
 	p.SegMode = ch.Pick("params", "segmode", 4)
 	p.LatMode = ch.Pick("params", "latmode", 3)
 	p.Faults = ch.Bool("params", "faults")
+	if prop == "C07" {
+		p.Faults = false // the transport's segmentation is the only thing that varies
+	}
 	p.WorkerPool = !ch.Bool("params", "noworkerpool")
 	p.ConnTimeoutS = pickFrom(ch, "params", "conntimeout", []int{0, 1, 3})
 	p.BigBodies = ch.Chance("params", "big", 1, 4)
@@ -111,7 +131,23 @@ func protoChoices(prop string) []string {
 	case "C09":
 		return []string{"http1", "boltpp", "bolt"}
 	}
-	return []string{"bolt", "http1", "boltpp"}
+	return []string{"bolt", "http1", "boltpp", "boltv2"}
+}
+
+// protocols an Auto listener is exercised with (boltpp shares bolt's magic byte and is left out)
+var autoProtos = []string{"bolt", "boltv2", "http1"}
+
+func autoAllowed(prop string) bool {
+	return os.Getenv("VERIF_PROTO") == "" && (prop == "C07" || prop == "C08" || prop == "C01" || prop == "C02")
+}
+
+func (w *Proxy) protoOfConn(ci int) string { return w.P.Protos[ci%len(w.P.Protos)] }
+
+func poolName(proto string) string {
+	if proto == "http1" {
+		return "Http1"
+	}
+	return proto
 }
 
 func isX(proto string) bool { return proto != "http1" && proto != "http2" }
@@ -166,6 +202,11 @@ func (w *Proxy) buildConfig() []byte {
 		pcfg = J{"downstream_protocol": "Http1", "upstream_protocol": "Http1", "router_config_name": "r0"}
 		match = J{"prefix": "/"}
 	}
+	if p.Auto {
+		// every request carries a "service" header, whatever its protocol
+		pcfg = J{"downstream_protocol": "Auto", "upstream_protocol": "Auto", "router_config_name": "r0"}
+		match = J{"headers": []J{{"name": "service", "value": ".*", "regex": true}}}
+	}
 	lis := J{
 		"name": "l0", "address": w.lisAddr, "bind_port": true,
 		"filter_chains": []J{{"filters": []J{{"type": "proxy", "config": pcfg}}}},
@@ -192,12 +233,11 @@ func (w *Proxy) buildConfig() []byte {
 func NewProxy(s *sim.Sim, prop string, p ProxyParams) *Proxy {
 	w := &Proxy{S: s, P: p, Prop: prop, H: peers.NewHistory(), hostMode: map[string]int{}, Stats: map[string]int{}}
 	w.N = sim.NewNet(s)
-	w.codec = peers.Bolt{}
 	return w
 }
 
 func (w *Proxy) replyBuilder(u *peers.XUpstream, r *peers.ReqRec, up *peers.UpRec) *peers.XFrame {
-	f := &peers.XFrame{IsReq: false, Class: "com.verif.Resp", Status: w.codec.SuccessStatus()}
+	f := &peers.XFrame{IsReq: false, Class: "com.verif.Resp", Status: u.Codec.SuccessStatus()}
 	if up.Act.Err {
 		f.Status = 2 // server exception, carries the token nevertheless
 	}
@@ -220,14 +260,7 @@ func (w *Proxy) onDial(addr string) (sim.DialDecision, sim.Peer, string) {
 	}
 	w.dialMu.Lock()
 	defer w.dialMu.Unlock()
-	if w.P.Proto == "http1" {
-		u := &peers.H1Upstream{S: w.S, H: w.H, Host: addr, ReplyBuilder: w.h1ReplyBuilder}
-		w.h1ups = append(w.h1ups, u)
-		return sim.DialAccept, u, addr
-	}
-	u := &peers.XUpstream{S: w.S, H: w.H, Codec: w.codec, Host: addr, ReplyBuilder: w.replyBuilder}
-	w.ups = append(w.ups, u)
-	return sim.DialAccept, u, addr
+	return sim.DialAccept, &autoUp{w: w, host: addr}, addr
 }
 
 func (w *Proxy) latency(c *sim.Conn, toMosn bool) time.Duration {
@@ -323,14 +356,15 @@ func (w *Proxy) Setup() error {
 			}
 		}
 	}
-	if p.Proto == "http1" {
-		w.setupH1Clients()
-	} else {
-		w.setupXClients()
-	}
+	w.setupClients()
 	s.Quiesce = append(s.Quiesce, w.quiescent)
 	// workload features, for evidence and for the conditions of known findings
-	s.Faults["w:proto:"+p.Proto]++
+	for _, x := range p.Protos {
+		s.Faults["w:proto:"+x]++
+	}
+	if p.Auto {
+		s.Faults["w:auto_listener"]++
+	}
 	for _, r := range w.H.Reqs {
 		if r.Oneway {
 			s.Faults["w:oneway"]++
@@ -447,9 +481,10 @@ func (w *Proxy) startProbe(k int) {
 	for i := 0; i < k; i++ {
 		tok := fmt.Sprintf("%016x", sim.Mix(s.Ch.Seed^0x70726f6265, uint64(i)))
 		r := &peers.ReqRec{ID: uint64(9000 + i), Token: tok, Extra: map[string]string{"probe": "1"}, Script: []peers.Action{{Kind: "reply", Delay: 5 * time.Millisecond}}}
+		r.Proto = w.P.Proto
 		if w.P.Proto == "http1" {
 			m := &peers.H1Msg{IsReq: true, Method: "POST", Target: "/probe", Body: []byte(tok),
-				Headers: []peers.KV{{K: "Host", V: "svc.test"}, {K: "X-Tok", V: tok}, {K: "User-Agent", V: "verif/1"}, {K: "Content-Type", V: "application/x-verif"}}}
+				Headers: []peers.KV{{K: "Host", V: "svc.test"}, {K: "X-Tok", V: tok}, {K: "service", V: "svc0"}, {K: "User-Agent", V: "verif/1"}, {K: "Content-Type", V: "application/x-verif"}}}
 			r.Method, r.Target, r.HReq = m.Method, m.Target, m
 			r.Frame = peers.BuildH1(m)
 			w.H.Add(r)
@@ -459,11 +494,11 @@ func (w *Proxy) startProbe(k int) {
 			cl.Enqueue(r)
 		} else {
 			f := &peers.XFrame{IsReq: true, ID: r.ID, Class: "com.verif.Req", Body: []byte(tok), Headers: []peers.KV{{K: "service", V: "svc0"}, {K: "tok", V: tok}}}
-			r.Frame = w.codec.Build(f)
+			r.Frame = peers.CodecFor(w.P.Proto).Build(f)
 			r.Extra["ptimeout"] = "0"
 			w.H.Add(r)
 			if w.probeCl == nil {
-				w.probeCl = peers.NewXClient(s, w.H, w.codec, "probe")
+				w.probeCl = peers.NewXClient(s, w.H, peers.CodecFor(w.P.Proto), "probe")
 				w.probeCl.Conn = w.N.Connect(w.lisAddr, "probe", w.probeCl)
 				w.clients = append(w.clients, w.probeCl)
 			}
@@ -497,6 +532,9 @@ func (w *Proxy) checkProbe(k int) {
 
 func (w *Proxy) finish() {
 	w.finished = true
+	for k, v := range w.S.RaceFeatures() {
+		w.S.Faults[k] += v
+	}
 	if w.N.DialsRefused > 0 {
 		w.S.Faults["connect_refused"] += w.N.DialsRefused
 	}
@@ -511,7 +549,7 @@ func (w *Proxy) Done() bool { return w.finished }
 // Nontrivial: at least two requests overlapped in time or a fault fired.
 func (w *Proxy) Nontrivial() bool {
 	for k, n := range w.S.Faults {
-		if n > 0 && !strings.HasPrefix(k, "w:") {
+		if n > 0 && !strings.HasPrefix(k, "w:") && !strings.HasPrefix(k, "race:") {
 			return true
 		}
 	}
@@ -531,11 +569,24 @@ func (w *Proxy) Nontrivial() bool {
 // XSites are the exploration yield points in /repo (build tag verif).
 var XSites = []string{"x:proxy.timer.global.cas", "x:proxy.timer.pertry.cas", "x:proxy.upstream.onreceive.cas"}
 
-func (w *Proxy) setupXClients() {
-	s, ch, p := w.S, w.S.Ch, w.P
+func (w *Proxy) setupClients() {
 	reqIdx := 0
-	for ci := 0; ci < p.NConns; ci++ {
-		cl := peers.NewXClient(s, w.H, w.codec, fmt.Sprintf("cl%d", ci))
+	for ci := 0; ci < w.P.NConns; ci++ {
+		if proto := w.protoOfConn(ci); proto == "http1" {
+			w.setupH1Client(ci, &reqIdx)
+		} else {
+			w.setupXClient(ci, proto, &reqIdx)
+		}
+	}
+}
+
+func (w *Proxy) setupXClient(ci int, proto string, reqIdxP *int) {
+	s, ch, p := w.S, w.S.Ch, w.P
+	codec := peers.CodecFor(proto)
+	reqIdx := *reqIdxP
+	defer func() { *reqIdxP = reqIdx }()
+	{
+		cl := peers.NewXClient(s, w.H, codec, fmt.Sprintf("cl%d", ci))
 		w.clients = append(w.clients, cl)
 		t0 := time.Duration(ch.Pick("work", "connat", 5)) * time.Millisecond
 		seg := p.SegMode
@@ -545,7 +596,7 @@ func (w *Proxy) setupXClients() {
 			reqIdx++
 			t += pickFrom(ch, "work", "gap", []time.Duration{0, 0, time.Millisecond, 10 * time.Millisecond, 100 * time.Millisecond})
 			tok := fmt.Sprintf("%016x", sim.Mix(ch.Seed^0x746f6b656e, uint64(reqIdx))) // unique by construction, not a choice
-			r := &peers.ReqRec{ID: idBase + uint64(k) + 1, Token: tok}
+			r := &peers.ReqRec{ID: idBase + uint64(k) + 1, Token: tok, Proto: proto}
 			r.Oneway = p.Oneway && ch.Chance("work", "oneway", 1, 4)
 			nAtt := 1 + p.NumRetries
 			if nAtt > 4 {
@@ -567,7 +618,7 @@ func (w *Proxy) setupXClients() {
 			for x := ch.Pick("work", "nhdr", 4); x > 0; x-- {
 				f.Headers = append(f.Headers, peers.KV{K: fmt.Sprintf("k%d", x), V: hex.EncodeToString(ch.Bytes("work", ch.Pick("work", "hl", 20)))})
 			}
-			r.Frame = w.codec.Build(f)
+			r.Frame = codec.Build(f)
 			if r.Extra == nil {
 				r.Extra = map[string]string{}
 			}
@@ -616,10 +667,11 @@ func (w *Proxy) h1ReplyBuilder(u *peers.H1Upstream, r *peers.ReqRec, up *peers.U
 	return m
 }
 
-func (w *Proxy) setupH1Clients() {
+func (w *Proxy) setupH1Client(ci int, reqIdxP *int) {
 	s, ch, p := w.S, w.S.Ch, w.P
-	reqIdx := 0
-	for ci := 0; ci < p.NConns; ci++ {
+	reqIdx := *reqIdxP
+	defer func() { *reqIdxP = reqIdx }()
+	{
 		cl := peers.NewH1Client(s, w.H, fmt.Sprintf("cl%d", ci))
 		w.h1clients = append(w.h1clients, cl)
 		seg := p.SegMode
@@ -636,7 +688,7 @@ func (w *Proxy) setupH1Clients() {
 			reqIdx++
 			t += pickFrom(ch, "work", "gap", []time.Duration{0, 0, time.Millisecond, 10 * time.Millisecond, 100 * time.Millisecond})
 			tok := fmt.Sprintf("%016x", sim.Mix(ch.Seed^0x746f6b656e, uint64(reqIdx)))
-			r := &peers.ReqRec{Token: tok, Extra: map[string]string{}}
+			r := &peers.ReqRec{Token: tok, Proto: "http1", Extra: map[string]string{}}
 			nAtt := 1 + p.NumRetries
 			if nAtt > 4 {
 				nAtt = 4
@@ -648,7 +700,7 @@ func (w *Proxy) setupH1Clients() {
 			m.Method = pickFrom(ch, "work", "method", []string{"POST", "GET", "PUT", "DELETE"})
 			m.Target = pickFrom(ch, "work", "target", h1Targets)
 			r.Method, r.Target = m.Method, m.Target
-			m.Headers = []peers.KV{{K: "Host", V: "svc.test"}, {K: "X-Tok", V: tok}, {K: "User-Agent", V: "verif/1"}, {K: "Content-Type", V: "application/x-verif"}}
+			m.Headers = []peers.KV{{K: "Host", V: "svc.test"}, {K: "X-Tok", V: tok}, {K: "service", V: fmt.Sprintf("svc%d", k%3)}, {K: "User-Agent", V: "verif/1"}, {K: "Content-Type", V: "application/x-verif"}}
 			for x := ch.Pick("work", "nhdr", 4); x > 0; x-- {
 				m.Headers = append(m.Headers, peers.KV{K: fmt.Sprintf("X-K%d", x), V: hex.EncodeToString(ch.Bytes("work", 1+ch.Pick("work", "hl", 20)))})
 			}
@@ -683,3 +735,74 @@ func (w *Proxy) setupH1Clients() {
 }
 
 var _ = strings.ToLower
+
+// autoUp is the peer of an upstream connection until its first bytes tell the
+// protocol (MOSN keeps one pool per protocol and host; with an Auto listener a
+// host receives connections of several protocols).
+type autoUp struct {
+	w    *Proxy
+	host string
+	conn *sim.Conn
+	impl sim.Peer
+}
+
+func (a *autoUp) OnConnect(c *sim.Conn) { a.conn = c }
+
+func (a *autoUp) OnData(c *sim.Conn, b []byte) {
+	if a.impl == nil && len(b) > 0 {
+		w := a.w
+		w.dialMu.Lock()
+		switch {
+		case b[0] == 1 || b[0] == 2:
+			proto := "bolt"
+			if b[0] == 2 {
+				proto = "boltv2"
+			}
+			u := &peers.XUpstream{S: w.S, H: w.H, Codec: peers.CodecFor(proto), Host: a.host, ReplyBuilder: w.replyBuilder}
+			u.OnConnect(c)
+			w.ups = append(w.ups, u)
+			a.impl = u
+		default:
+			u := &peers.H1Upstream{S: w.S, H: w.H, Host: a.host, ReplyBuilder: w.h1ReplyBuilder}
+			u.OnConnect(c)
+			w.h1ups = append(w.h1ups, u)
+			a.impl = u
+		}
+		w.dialMu.Unlock()
+	}
+	if a.impl != nil {
+		a.impl.OnData(c, b)
+	}
+}
+
+func (a *autoUp) OnClose(c *sim.Conn) {
+	if a.impl != nil {
+		a.impl.OnClose(c)
+	}
+}
+
+// Digest summarises what every upstream and every client saw, in a form that
+// does not depend on scheduling: per request (by token) the frames received by
+// upstreams (request id masked) and the reply delivered. C07 compares it
+// between runs that differ in the transport's segmentation only.
+func (w *Proxy) Digest() string {
+	h := sha256.New()
+	for _, r := range w.H.Reqs {
+		fmt.Fprintf(h, "req %d %s sent=%v ups=%d reps=%d|", r.Idx, r.Proto, r.SentAt > 0, len(r.Upstream), len(r.Replies))
+		for _, up := range r.Upstream {
+			fr := up.Frame
+			if c := peers.CodecFor(r.Proto); c != nil {
+				fr = c.MaskID(fr)
+			} else if up.H != nil {
+				// HTTP: compare the fields, not the bytes (Date etc. are protocol-managed)
+				fr = []byte(up.H.Method + " " + up.H.Target + "\n" + string(up.H.Body))
+			}
+			h.Write(fr)
+		}
+		for _, rep := range r.Replies {
+			fmt.Fprintf(h, "|%d %s ", rep.Status, rep.Tok)
+			h.Write(rep.Body)
+		}
+	}
+	return hex.EncodeToString(h.Sum(nil)[:12])
+}
